@@ -325,7 +325,14 @@ func TestVerifE2E_C14(t *testing.T) {
 	rec := vlib.Open("C14")
 	defer rec.Close()
 	total := vlib.Scale(480, 9600)
-	vlib.Cases(total, func(idx int) {
+	// then: several sessions of one neighbour whose 4-octet-AS capability changes (e2e_c14_resession_test.go)
+	multi := vlib.Scale(96, 1920)
+	vlib.Cases(total+multi, func(idx int) {
+		if idx >= total {
+			rec.Mark(fmt.Sprintf("e2e c14 re-session scenario %d", idx), true)
+			synctest.Test(t, func(t *testing.T) { e2eC14Resession(t, rec, idx, idx-total) })
+			return
+		}
 		rec.Mark(fmt.Sprintf("e2e c14 scenario %d", idx), true)
 		synctest.Test(t, func(t *testing.T) { e2eC14Scenario(t, rec, idx) })
 	})
